@@ -1,7 +1,7 @@
 (* C03 -- Restart after a crash converges to the uninterrupted result.  Model: TaskFS + the sequential reference `result`. *)
 From Coq Require Import List Arith Lia Bool PeanoNat String.
 Import ListNotations.
-From SP Require Import Skel Gen Expected Result TaskFS TInv TPres Glue Cor TaskTop.
+From SP Require Import Skel Gen Expected Result TaskFS TInv TPres Glue Cor TaskTop History.
 
 Theorem C03_code_conforms :
   skel_eqb skel_Task_Execute exp_Task_Execute
@@ -25,6 +25,20 @@ Theorem C03_converges : forall (c : cfg) (f0 : fs) (left0 : nat -> bool), wfc c 
   forall s, reachable c f0 left0 s -> finalize_atomic c s ->
   exists fR', result (tl c (nt c)) (fin s) = Some fR' /\ forall x, fR' x = fR x.
 Proof. exact TaskTop.crash_restart_converges. Qed.
+
+(* every history: any finite sequence of runs, each started on what the previous one left (with or without left-over temp
+   dirs) and killed at any instant at which no task is strictly between two of its renames -- nested crashes during
+   recovery included -- leaves a store from which the next run computes the uninterrupted result ... *)
+Theorem C03_any_history : forall (c : cfg), wfc c -> forall (f0 fR : fs), pre c f0 (nt c) = Some fR ->
+  forall f, hist c f0 f -> exists fR', result (tl c (nt c)) f = Some fR' /\ forall x, fR' x = fR x.
+Proof. exact History.any_history_converges. Qed.
+
+(* ... and every concurrent execution of that run that gets all its tasks done holds the uninterrupted run's content at
+   every declared output *)
+Theorem C03_any_history_run : forall (c : cfg), wfc c -> forall (f0 fR : fs), pre c f0 (nt c) = Some fR ->
+  forall f left s, hist c f0 f -> reachable c f left s -> (forall t, t < nt c -> is_done (pcs s t) = true) ->
+  forall t x, t < nt c -> In x (tout (tk c t)) -> fin s x = fR x.
+Proof. exact History.any_history_run_completes. Qed.
 
 (* tasks whose outputs were final at the crash are not executed again (C02 applied to the crash state's files) *)
 Theorem C03_no_reexecution : forall (c : cfg) (f1 : fs) (left1 : nat -> bool), wfc c ->
@@ -56,6 +70,8 @@ Proof. exact Result.C03_midfinalize_refuted. Qed.
 Print Assumptions C03_code_conforms.
 Print Assumptions C03_complete_is_result.
 Print Assumptions C03_converges.
+Print Assumptions C03_any_history.
+Print Assumptions C03_any_history_run.
 Print Assumptions C03_no_reexecution.
 Print Assumptions C03_refuses_leftovers.
 Print Assumptions C03_midfinalize_refuted.
